@@ -162,6 +162,14 @@ func (u *evUniverse) runCase(c EvCase, hostile bool) *evOutcome {
 		out.Feat["op:"+o.K]++
 		f.post(o, y, ge, u.Addrs)
 		if o.K == "dump" {
+			// record level (8684164): right after Finalise the raw balance and storage records of every
+			// address equal the reference's committed state; an account the reference does not have
+			// has none (invisible through the interface: a created object hides old records)
+			if d := u.recordsDiffer(w, ge); d != "" {
+				out.DiffAt = len(out.Lines) - 1
+				out.Sig, out.Detail = "records-differ-from-reference", d
+				break
+			}
 			continue
 		}
 		if under {
@@ -192,6 +200,31 @@ func (u *evUniverse) runCase(c EvCase, hostile bool) *evOutcome {
 	return out
 }
 
+// recordsDiffer compares the adapter's raw balance and storage records of the universe with what
+// the reference holds (valid right after Finalise, when nothing is pending in either).
+func (u *evUniverse) recordsDiffer(w *EvAdapter, ge evAPI) string {
+	for _, a := range u.sortedAddrs() {
+		exists := ge.Exist(a)
+		want := new(big.Int)
+		if exists {
+			want = ge.GetBalance(a)
+		}
+		if got := w.rawBalance(a); got.Cmp(want) != 0 {
+			return fmt.Sprintf("balance record of %s: %s, reference %s (exists=%v)", natAddr(a), got, want, exists)
+		}
+		for _, k := range u.Slots {
+			var wantS ethcmn.Hash
+			if exists {
+				wantS = ge.GetState(a, k)
+			}
+			if got := w.rawSlot(a, k); got != wantS {
+				return fmt.Sprintf("storage record %s[%s]: %s, reference %s (exists=%v)", natAddr(a), natHash(k), natHash(got), natHash(wantS), exists)
+			}
+		}
+	}
+	return ""
+}
+
 func fieldsDiffer(x, y string) map[int]bool {
 	fx, fy := strings.Fields(x), strings.Fields(y)
 	d := map[int]bool{}
@@ -220,7 +253,9 @@ func subset(d map[int]bool, allowed ...int) bool {
 
 // classify names the first adapter-vs-reference difference of a case.  Every signature other than
 // the last is the fingerprint of one mechanism read in the code (DESIGN §7 S8 and the notes in
-// OLP/Props/C16.lean); anything that does not fit one exactly is "adapter-differs-from-reference".
+// OLP/Props/C16.lean), all repaired in /repo by now: they stay as the fingerprints of a regression
+// and none of them is a listed known finding.  Anything that does not fit one exactly is
+// "adapter-differs-from-reference".
 func (f *evFeatures) classify(o EvOp, x, y, pmsg string) (string, string) {
 	detail := fmt.Sprintf("op %q adapter=%q reference=%q", o.Line(), x, y)
 	if pmsg != "" {
